@@ -311,12 +311,19 @@ func verifDiff(a, d asserts.Assertion) string {
 func (w *verifC20) stable(x asserts.Assertion, from string) {
 	y, err := asserts.Decode(asserts.Encode(x))
 	if err != nil {
-		w.violate("accepted-input-does-not-reencode", "an assertion accepted from %s re-encodes to something Decode rejects: %v", from, err)
+		w.violate("accepted-input-does-not-reencode", "an assertion accepted from %s re-encodes to something Decode rejects: %v; encoding %q", from, err, verifShortBytes(asserts.Encode(x), 700))
 		return
 	}
 	if d := verifDiff(x, y); d != "" {
 		w.violate("accepted-input-does-not-reencode", "an assertion accepted from %s changes its %s when encoded and decoded again", from, d)
 	}
+}
+
+func verifShortBytes(b []byte, n int) string {
+	if len(b) > n {
+		return string(b[:n/2]) + "[...]" + string(b[len(b)-n/2:])
+	}
+	return string(b)
 }
 
 func verifHeadLen(content []byte) int {
@@ -391,6 +398,7 @@ func verifRunC20(c *verifsim.Ctx) {
 	rd.chunk = []int{0, -1, 1, 3, 4096, 4095}[c.Draw("chunking", 6)]
 	var mkDecoder func(r io.Reader) *asserts.Decoder = asserts.NewDecoder
 	cutAt := -1
+	stallN := 0 // as configured; the reader counts its own copy down
 	limH, limB, limS := -1, -1, -1
 	var typeLimit map[*asserts.AssertionType]int
 	switch scenario {
@@ -408,7 +416,8 @@ func verifRunC20(c *verifsim.Ctx) {
 	case "stall":
 		rd.stallAt = c.Draw("stall-at", len(stream)+1)
 		rd.stallN = []int{1, 50, 99, 100, 150}[c.Draw("stall-n", 5)]
-		if rd.stallN >= 100 {
+		stallN = rd.stallN
+		if stallN >= 100 {
 			w.fault("reader-makes-no-progress")
 		} else {
 			w.fault("reader-stalls-briefly")
@@ -543,9 +552,9 @@ func verifRunC20(c *verifsim.Ctx) {
 			c.Count("probe:several-assertions-streamed")
 		}
 	case "stall":
-		if rd.stallN < 100 {
+		if stallN < 100 {
 			if derr != io.EOF || len(got) != n {
-				w.violate("valid-stream-rejected", "stream with %d empty reads at %d: decoded %d of %d, then %v", rd.stallN, rd.stallAt, len(got), n, derr)
+				w.violate("valid-stream-rejected", "stream with %d empty reads at %d: decoded %d of %d, then %v", stallN, rd.stallAt, len(got), n, derr)
 				return
 			}
 			intactPrefix(n)
